@@ -247,6 +247,14 @@ func Destroy() {
 	if !global.init {
 		return
 	}
+	// Unbind tags and named handles first, so that logging after Destroy falls
+	// back to the default logger instead of reaching stopped loggers.
+	for _, t := range tagRegistry {
+		t.logger = nil
+	}
+	for _, l := range loggerMap {
+		l.logger = nil
+	}
 	for _, l := range global.loggers {
 		l.Stop()
 	}
